@@ -142,12 +142,12 @@ func check(c Case) (o h.Outcome) {
 		}
 		runtime.ReadMemStats(&m1)
 		// "never a hang": the work done for a request has to be bounded by the request, not by a number
-		// written in it. Allocation is the deterministic measure of that work. The bound is deliberately
-		// far above anything polynomial in the request at the generated sizes (64 MiB plus 64 KiB per
-		// byte of request: nested error dumps are quadratic in the nesting depth and stay below it), so
-		// only work that is independent of the request size trips it.
+		// written in it. Allocation is the deterministic measure of that work. The bound is quadratic in
+		// the size of the request (64 MiB plus 64 bytes per byte squared): the error dumps for a deeply
+		// nested body are quadratic in its depth (0.7 GiB for 3000 levels in 6 KiB) and stay below it; a
+		// 50-byte query that makes the validator allocate hundreds of MiB does not.
 		reqSize := uint64(len(c.Req.Path) + len(c.Req.Query) + len(c.Req.Body) + 1024)
-		if alloc := m1.TotalAlloc - m0.TotalAlloc; alloc > 64<<20+(64<<10)*reqSize {
+		if alloc := m1.TotalAlloc - m0.TotalAlloc; alloc > 64<<20+64*reqSize*reqSize {
 			cause := "other"
 			if reBigIndex.MatchString(c.Req.Query) {
 				cause = "deepObject-index"
